@@ -163,3 +163,27 @@ Proof.
   assert (E : cpn G2 5 = [3; 4]) by (vm_compute; reflexivity). rewrite E. simpl.
   split; [intros [H|[H|[]]]; auto | intros [H|H]; auto].
 Qed.
+
+(* removing the peering link 5 of G2 by hand is refused (fix 65db950) *)
+Example ex_remove_peering_link :
+  by_name G2 CLink 5 = [5] /\ link_has_service_port G2 5 = true /\
+  fst (run (exec true (ORemoveLink 5) []) G2) = inr ETopology /\ trace_of (run (exec true (ORemoveLink 5) []) G2) = [].
+Proof. vm_compute. repeat split; reflexivity. Qed.
+
+(* the interfaces of n1 in G1 are not connected to each other *)
+Lemma G1_self_peer_free : self_peer_free G1 (ORemoveNode 1) 6.
+Proof.
+  unfold self_peer_free, disc_ifs. intros jj [n [Hn Hjj]].
+  assert (E1 : topo_nodes G1 1 = [1]) by (vm_compute; reflexivity). rewrite E1 in Hn. destruct Hn as [<-|[]].
+  assert (E2 : disc_list G1 (node_interface_list G1 1) = [4; 5; 6]) by (vm_compute; reflexivity).
+  rewrite E2 in Hjj.
+  assert (P4 : peer_cps G1 4 = [8]) by (vm_compute; reflexivity).
+  assert (P5 : peer_cps G1 5 = []) by (vm_compute; reflexivity).
+  assert (P6 : peer_cps G1 6 = [16]) by (vm_compute; reflexivity).
+  assert (C8 : cpn G1 8 = []) by (vm_compute; reflexivity).
+  assert (C16 : cpn G1 16 = []) by (vm_compute; reflexivity).
+  destruct Hjj as [<-|[<-|[<-|[]]]].
+  - rewrite P4. split; [simpl; intuition discriminate|]. intros p [<-|[]] _. rewrite C8. intros [].
+  - rewrite P5. split; [intros []|]. intros p [].
+  - rewrite P6. split; [simpl; intuition discriminate|]. intros p [<-|[]] _. rewrite C16. intros [].
+Qed.
